@@ -16,7 +16,7 @@ BUDGET = {"quick": {"runs": 2200, "wall": 80}, "thorough": {"runs": 60000, "wall
 ISOLATE = "chunk"       # every chunk of runs in a forked child of a pristine worker: what a run sees of the process is a
                         # deterministic function of the runs before it in the same chunk (see runner.run_history_iso)
 SHRINK_LISTS = ("ops",)
-PROBES = {"C16": ["ctor-tensors-reused", "dt:const-per-row", "prop_cov=False", "per-axis-noise-cov", "layout:strided", "layout:expanded-dt", "explicit-init-state", "reset=True-repeat", "chunk-of-one", "all-singletons", "F-not-pow2-minus-1", "rank-FH", "rank-H", "known-rot",
+PROBES = {"C16": ["init_state-then-carried", "negative-gravity", "ctor-tensors-reused", "dt:const-per-row", "prop_cov=False", "per-axis-noise-cov", "layout:strided", "layout:expanded-dt", "explicit-init-state", "reset=True-repeat", "chunk-of-one", "all-singletons", "F-not-pow2-minus-1", "rank-FH", "rank-H", "known-rot",
                   "integrated-rot+gravity", "zero-gravity", "float32", "batch>1", "nonidentity-init"]}
 
 # tolerance constants: calibrated on the repaired tree, worst observed ratio noted in DESIGN.md
@@ -34,7 +34,7 @@ def generate(seed, tier, prop="C16"):
     cfg = {"F": F, "B": B, "dtype": r.choice(["f64", "f64", "f32"]),
            "dt_mode": r.choice(["const", "const-per-row", "rand", "rand"]), "dt": rng.loguniform(r, 1e-4, 1.0),
            "gyro_scale": r.choice([0.0, 0.05, 0.5, 3.0]), "acc_scale": r.choice([0.0, 1.0, 10.0]),
-           "known_rot": r.random() < 0.35, "gravity": r.choice([9.81007, 9.81007, 0.0, 1.62]),
+           "known_rot": r.random() < 0.35, "gravity": r.choice([9.81007, 9.81007, 0.0, 1.62, -9.81007]),
            "init": r.random() < 0.6, "init_batched": r.random() < 0.4, "explicit": r.random() < 0.4,
            "layout": r.choice(["plain", "plain", "strided", "expanded-dt"]),
            "noise_cov": r.choice(["default", "default", "ctor-per-axis", "call-per-axis"])}
@@ -195,6 +195,8 @@ def execute(plan, prop, out, tr):
         out.probe("batch>1")
     if g == 0.0:
         out.probe("zero-gravity")
+    if g < 0:
+        out.probe("negative-gravity")
     if rot_known is None and g != 0.0:
         out.probe("integrated-rot+gravity")
     out.fault("fragmentation-cut", len(cuts))
@@ -331,6 +333,24 @@ def execute(plan, prop, out, tr):
             out.ops += 1
         out.probe("explicit-init-state")
         out.sigs.add("F%d|explicit|c%d" % (min(F, 64), min(len(chunks), 8)))
+    # --- (ii-e) reset=False integrator: the first chunk starts from an explicit init_state, later chunks rely on the state
+    #     the integrator carries
+    if len(chunks) > 1 and rng.H(s, "init-then-carry") % 3 == 0:
+        m9 = pp.module.IMUPreintegrator(gravity=c["gravity"], reset=False, **ctor_kw)
+        m9 = m9.double() if dtype == torch.float64 else m9
+        st0 = {"pos": p0.expand(B, 1, 3).clone() if True else p0, "rot": pp.LieTensor(r0.tensor().expand(B, 1, 4).clone(), ltype=pp.SO3_type),
+               "vel": v0.expand(B, 1, 3).clone()}
+        for ci, (lo, hi) in enumerate(chunks):
+            kw = dict(call_kw)
+            if rot_known is not None:
+                kw["rot"] = rot_known[:, lo:hi]
+            if ci == 0:
+                kw["init_state"] = st0
+            res = _guard(lambda: m9(dt[:, lo:hi], gyro[:, lo:hi], acc[:, lo:hi], **kw), "chunk %d (init_state at chunk 0 only)" % ci,
+                         lo, "raises:init-then-carry")
+            compare("init-then-carry#%d" % ci, res, lo, lo, hi)
+            out.ops += 1
+        out.probe("init_state-then-carried")
     # --- (ii-c) covariance propagation switched off (allowed only with reset=True): the states are the same
     if rng.H(s, "nocov") % 4 == 0:
         m6 = pp.module.IMUPreintegrator(pos=p0.clone(), rot=r0.clone(), vel=v0.clone(), gravity=c["gravity"], reset=True, prop_cov=False)
